@@ -397,6 +397,37 @@ pub fn run_case_focus(case: &QueueCase, ctx: &Ctx, focus: Option<QRule>) -> Run 
     };
 
     // wait for the worker to pick up the next metric, if the model says one is due
+    // C15 when the delivery model is already broken: drained() must still equal the number of
+    // times the wrapped sink was actually invoked
+    macro_rules! probe_drained {
+        ($oi:expr) => {{
+            if let Some(&h) = live.first() {
+                // (the worker counts a metric just before it calls the wrapped sink: give it a moment)
+                let mut last = None;
+                for _ in 0..20 {
+                    if let Ok(Reply::Stats { drained, .. }) = actor.call(Cmd::Stats(h), w) {
+                        let handed = gate.lock().entered as u64;
+                        if drained == handed {
+                            last = None;
+                            break;
+                        }
+                        last = Some((drained, handed));
+                    }
+                    std::thread::sleep(Duration::from_millis(5));
+                }
+                if let Some((drained, handed)) = last {
+                    find!(
+                        [QRule::Counters],
+                        $oi,
+                        "drained() = {} but the wrapped sink was invoked {} times",
+                        drained,
+                        handed
+                    );
+                }
+            }
+        }};
+    }
+
     macro_rules! settle {
         ($oi:expr) => {{
             if inhand.is_none() && !queue.is_empty() {
@@ -432,6 +463,7 @@ pub fn run_case_focus(case: &QueueCase, ctx: &Ctx, focus: Option<QRule>) -> Run 
                                 metric,
                                 head
                             );
+                            probe_drained!($oi);
                             fatal = true;
                         }
                         if on_producer || thread == actor.thread {
@@ -460,6 +492,7 @@ pub fn run_case_focus(case: &QueueCase, ctx: &Ctx, focus: Option<QRule>) -> Run 
                         "wrapped sink was invoked with {:?} although the model has nothing (more) due: duplicate or invented delivery",
                         extra
                     );
+                    probe_drained!($oi);
                     fatal = true;
                 }
             }
@@ -719,7 +752,7 @@ pub fn run_case_focus(case: &QueueCase, ctx: &Ctx, focus: Option<QRule>) -> Run 
                     match r {
                         Ok(Reply::Flushed(_)) => {}
                         Ok(Reply::Panicked(p)) => {
-                            find!([QRule::Isolation, QRule::Panic], oi, "flush panicked in the caller: {}", p);
+                            find!([QRule::Isolation, QRule::Panics, QRule::Panic], oi, "flush panicked in the caller (a panic of the wrapped sink unwound into a caller thread and is not counted by panics()): {}", p);
                             fatal = true;
                         }
                         Err(e) if e == "timeout" => {
@@ -1007,7 +1040,7 @@ pub fn queue_case(g: QGen) -> BoxedStrategy<QueueCase> {
         g.clone_w => any::<u16>().prop_map(QOp::Clone),
         g.drop_w => prop_oneof![4 => any::<u16>().prop_map(QOp::Drop), 1 => any::<u16>().prop_map(QOp::DropUnwinding)],
         g.step_w => step_out(g.err_w, g.panic_w).prop_map(QOp::Step),
-        g.flush_w => (any::<u16>(), prop_oneof![Just(StepOut::Ok), (0u8..13).prop_map(StepOut::Err)]).prop_map(|(h, o)| QOp::Flush(h, o)),
+        g.flush_w => (any::<u16>(), prop_oneof![3 => Just(StepOut::Ok), 3 => (0u8..13).prop_map(StepOut::Err), 2 => Just(StepOut::Panic)]).prop_map(|(h, o)| QOp::Flush(h, o)),
     ];
     (cap_strategy(), prop::bool::weighted(g.handler_p), any::<bool>(), prop::collection::vec(op, 0..=g.max_ops))
         .prop_map(|(cap, handler, handler_first, ops)| QueueCase {
